@@ -575,7 +575,10 @@ Record case := { c_terms : list term;
 Record obs := { o_eq : list (list bool);
                 o_hash : list (option Z);         (* None: a string missing in the oracle *)
                 o_lt : list (list (option cmp));  (* None: not modelled *)
-                o_sort : option bool }.           (* conformance flag computed by the harness *)
+                o_ne : list (list bool);          (* a != b *)
+                o_flags : list (option bool) }.   (* conformance flags computed by the harness: sorted() of the mixed list;
+                                                     sorted() of the literals of each datatype; set/dict collapse;
+                                                     > <= >= against < and == *)
 
 Fixpoint hash_get (tab : list (str * Z)) (s : str) : option Z :=
   match tab with
@@ -655,7 +658,10 @@ Definition model_obs (c : case) : obs :=
   {| o_eq := map (fun a => map (term_eqb a) ts) ts;
      o_hash := map (hash_of (c_hash c)) ts;
      o_lt := map (fun a => map (fun b => cmp_of (term_lt a b)) ts) ts;
-     o_sort := if N.eqb (kf c) 0 then Some true else None |}.
+     o_ne := map (fun a => map (fun b => negb (term_eqb a b)) ts) ts;       (* Identifier.__ne__ = not __eq__ *)
+     o_flags := [ (if N.eqb (kf c) 3 then None else Some true);            (* a signalling NaN makes sorted() raise *)
+                  (if N.eqb (kf c) 0 then Some true else None);             (* every ordering finding shows here *)
+                  Some true; Some true ] |}.
 
 Definition ocmp_eqb (m i : option cmp) : bool :=
   match m, i with
@@ -679,7 +685,8 @@ Definition obs_eqb (m i : obs) : bool :=
   list_eqb (list_eqb Bool.eqb) (o_eq m) (o_eq i)
   && list_eqb oz_eqb (o_hash m) (o_hash i)
   && list_eqb (list_eqb ocmp_eqb) (o_lt m) (o_lt i)
-  && obool_eqb (o_sort m) (o_sort i).
+  && list_eqb (list_eqb Bool.eqb) (o_ne m) (o_ne i)
+  && list_eqb obool_eqb (o_flags m) (o_flags i).
 
 (* --- the specification, over what was observed --- *)
 
@@ -749,9 +756,33 @@ Definition spec_base (c : case) (o : obs) : bool :=
   (* order *)
   && forallb (fun i => forallb (fun j =>
         lt_entry_ok (nth i ts (IRI [])) (nth j ts (IRI [])) (nthd (o_lt o) i j None)) (idx ts)) (idx ts)
-  && match o_sort o with Some false => false | _ => true end.
+  && forallb (fun f => match f with Some false => false | _ => true end) (o_flags o).
 
-Definition spec_ok (c : case) (o : obs) : bool := spec_base c o && family_ok (c_terms c) (o_lt o).
+(* != is the negation of == on every pair *)
+Definition ne_ok (c : case) (o : obs) : bool :=
+  let ts := c_terms c in
+  shape_ok (length ts) (o_ne o)
+  && forallb (fun i => forallb (fun j =>
+        Bool.eqb (nthd (o_ne o) i j false) (negb (nthd (o_eq o) i j false))) (idx ts)) (idx ts).
+
+Definition spec_ok (c : case) (o : obs) : bool :=
+  spec_base c o && family_ok (c_terms c) (o_lt o) && ne_ok c o.
+
+(* ================================================================== *)
+(* Suite "pickler": a sequence of terms through ONE rdflib.store.NodePickler (a fresh one, then Store().node_pickler):
+   loads(dumps(t)) for each t in turn.  NodePickler pickles with the standard pickler (persistent ids only for
+   registered objects), so each round trip is the class applied to the __reduce__ arguments. *)
+Definition pcase := list term.
+Definition pobs := list wres.
+Definition pmodel_obs (ts : pcase) : pobs := map (unpickle []) (ts ++ ts).
+Definition pobs_eqb (m i : pobs) : bool := list_eqb wres_eqb m i.
+Fixpoint all_same (ts : list term) (o : pobs) : bool :=
+  match ts, o with
+  | [], [] => true
+  | t :: r, w :: r' => (match w with WTerm t' => term_same t t' | _ => false end) && all_same r r'
+  | _, _ => false
+  end.
+Definition pspec_ok (ts : pcase) (o : pobs) : bool := all_same (ts ++ ts) o.
 
 (* ================================================================== *)
 (* Suite "text": n3 / from_n3 / pickle of one term *)
